@@ -3802,8 +3802,34 @@ where
                 message: "Bistellar flips require a PL-manifold (vertex-link validation)",
             });
         }
-        let (tds, kernel) = (&mut self.tri.tds, &self.tri.kernel);
-        repair_delaunay_with_flips_k2_k3(tds, kernel, None, topology)
+        let tds_snapshot = self.tri.tds.clone();
+        let result = {
+            let (tds, kernel) = (&mut self.tri.tds, &self.tri.kernel);
+            repair_delaunay_with_flips_k2_k3(tds, kernel, None, topology)
+        }
+        .and_then(|stats| {
+            self.restore_positive_orientation_after_repair()
+                .map(|()| stats)
+        });
+        if result.is_err() {
+            self.tri.tds = tds_snapshot;
+        }
+        result
+    }
+
+    /// Flip-based repair mutates cell orderings; restore the canonical positive geometric
+    /// orientation (a Level 3 invariant) before exposing the repaired triangulation.
+    fn restore_positive_orientation_after_repair(&mut self) -> Result<(), DelaunayRepairError>
+    where
+        K::Scalar: ScalarSummable,
+    {
+        self.tri
+            .normalize_and_promote_positive_orientation()
+            .map_err(|err| DelaunayRepairError::PostconditionFailed {
+                message: format!(
+                    "Geometric orientation normalization failed after Delaunay repair: {err}"
+                ),
+            })
     }
 
     fn repair_delaunay_with_flips_robust(
@@ -3815,8 +3841,19 @@ where
     {
         let topology = self.tri.topology_guarantee();
         let kernel = RobustKernel::<K::Scalar>::new();
-        let (tds, kernel) = (&mut self.tri.tds, &kernel);
-        repair_delaunay_with_flips_k2_k3(tds, kernel, seed_cells, topology)
+        let tds_snapshot = self.tri.tds.clone();
+        let result = {
+            let (tds, kernel) = (&mut self.tri.tds, &kernel);
+            repair_delaunay_with_flips_k2_k3(tds, kernel, seed_cells, topology)
+        }
+        .and_then(|stats| {
+            self.restore_positive_orientation_after_repair()
+                .map(|()| stats)
+        });
+        if result.is_err() {
+            self.tri.tds = tds_snapshot;
+        }
+        result
     }
 
     fn should_run_delaunay_repair_for(
